@@ -283,6 +283,18 @@ def run (c : Case) : CaseOut := Id.run do
     let leak := io.any fun l => l.head? == some "goroutines-left"
     return { obs := [[["execute", "error"]]], tags := ["execute-fails-after-build"],
              spec := if leak then "fail:engine-goroutine-still-running-after-stop(execute-failed)" else "ok" }
+  -- `exotic`: ordinary rows, rows whose values have unusual Go types, ordinary rows again, then Stop: the engine keeps
+  -- working (later rows reach the sink, a table write returns), no call panics, Stop returns and leaves nothing running
+  if (c.ops.map (·.1)).all (fun o => o.head? == some "exotic") && !c.ops.isEmpty then
+    let io := c.ops.flatMap (·.2)
+    let has (k : String) := io.any fun l => l.head? == some k
+    let v := if has "panicked" then "fail:a-call-panicked(exotic-row-values)"
+      else if has "table-write-blocked" then "fail:deadlock(table-write-never-returns-after-exotic-row)"
+      else if has "later-rows-lost" then "fail:rows-after-an-exotic-row-not-processed"
+      else if has "stuck" then "fail:deadlock(stop-never-returned)"
+      else if has "goroutines-left" then "fail:engine-goroutine-still-running-after-stop"
+      else "ok"
+    return { obs := c.ops.map (·.2), tags := ["exotic-row-values"] ++ (c.ops.filterMap fun o => (o.1.getD 1 "?") |> fun k => some ("exotic-" ++ k)), spec := v }
   let mut d := initD c
   let hasSinks := !(d.s.asyncSinks.isEmpty && d.s.syncSinks.isEmpty)
   let mut obs : List (List (List String)) := []
